@@ -13,6 +13,8 @@ COMMON_NOTE = ("Trusted: Lean 4.33 kernel (axioms of every property theorem audi
                "/repo's working tree by the correspondence check of each run (line protocol, generated inputs) and "
                "agreement is established on those inputs only; Python/NumPy primitive semantics as mirrored in the model.")
 
+LAY = "Lean 4 proof over the layout proof model (patch-list writer `patchesD`, view reader `readD`) for the reference-free grammar incl. N-D arrays of static/dynamic items in any axis order: mutual structural induction over types/fields/items with the agreement-strengthened round trip and the frame lemma; the proof model's definitions are executed against the real library on every reference-free case of every run (whole-buffer image), the executable full-grammar model on all cases; "
+
 # id -> (technique, level text, level note extra, design ref)
 CHECKS = {
     "C04": ("Lean 4 proof: invariant by induction over all allocate/free/grow/write histories of the allocator model; "
@@ -103,6 +105,54 @@ CHECKS = {
             "Partial: float astype is NumPy's (compared with NumPy by the oracle, not modelled); whether a Python object returned "
             "by a primitive aliases the buffer is a runtime fact measured by follow-up writes in both directions.",
             "7/C13"),
+    "C01": (LAY + "oracle: deep read through every accessor vs the generator's intended value",
+            "Kernel-checked theorems: C01_roundtrip_partial (for every well-formed reference-free type, every conforming value, every "
+            "buffer image and every placement with room: the view reads back exactly the written value, a capacity as the empty "
+            "string), C01_read_local (the value depends only on the bytes of the object's own extent), "
+            "C01_stable_under_other_writes, C01_capacity_reads_empty. No bound on nesting depth, dimensions or sizes.",
+            "Partial: references, union references and construction from existing xobjects are covered by the executable model's "
+            "tie and the oracle only; input-form normalisation (nested lists / ndarray / dict -> canonical value; index order -> "
+            "memory order) is executable glue tied on every case.",
+            "7/C01"),
+    "C03": (LAY + "oracle: whole-buffer diff outside the traced reservations",
+            "Kernel-checked theorems: C03_frame (every slice assignment of the writer lies inside [off, off+size): the buffer keeps its "
+            "length and every byte outside the extent is unchanged, whatever it held), C03_size_static / C03_size_word_* (the size an "
+            "object reports is the extent the writer stays inside), C03_static_struct_parts / C03_dynamic_struct_parts / "
+            "C03_array_items_dynamic (parts inside the parent, siblings pairwise disjoint).",
+            "Partial: extents newly allocated for reference targets come from the traced allocate() calls (tie + oracle).",
+            "7/C03"),
+    "C05": (LAY + "oracle: a decoder written in Python only from Architecture.md/types.rst run on the real bytes",
+            "Kernel-checked theorems: C05_decode (decoding the bytes by the documented rules - size word, header words, offset slots, "
+            "offset table in memory order, data - recovers the value), C05_string (size-prefixed, NUL-padded to a slot), "
+            "C05_dynamic_struct / C05_offset_slot (size, static fields, offsets of the 2nd.. dynamic fields, data), C05_array_header "
+            "(size, dynamic dims, strides iff N-D and dynamic; exactly dataOff bytes), C05_array_table, and the slot-alignment facts "
+            "C05_*_slots / C05_compound_size_mod.",
+            "Partial: the reference encodings (relative offset, null = -2^63, member index) are checked by the Python decoder and the "
+            "executable model, not proved.",
+            "7/C05"),
+    "C06": (LAY + "oracle: _from_buffer view vs constructor handle (value, size, shape, strides; writes through either)",
+            "Kernel-checked theorems: C06_view_value (a view, which re-reads every cached quantity from the bytes, reads the value the "
+            "constructor was given, at every nesting level), C06_view_shape, C06_view_size (the size word equals the planned size for "
+            "every dynamically sized type), C06_no_private_state.",
+            "Partial: the strides a view caches are compared by the oracle and the executable model; handle-side caches are Python "
+            "attributes compared with the model's on every case.",
+            "7/C06"),
+    "C10": (LAY + "byte-level assignment model (setScalar / rewriteStr) executed on every generated assignment; oracle: deep re-read "
+            "after every assignment vs the intended value with one element replaced",
+            "Kernel-checked theorems: C10_scalar_set_get / C10_scalar_frame (an assigned scalar slot reads back the value; every other "
+            "byte unchanged), C10_other_parts_unchanged(_string)_partial (any object whose extent is disjoint from the assigned slot - "
+            "sibling, parent header, unrelated object - reads as before), C10_sizes_unchanged.",
+            "Partial: the value-level statement along arbitrary nested paths and whole nested struct/array assignment are tie + "
+            "oracle; assignments interleaved with buffer growth rest on C04 (bytes preserved) + C01_read_local.",
+            "7/C10"),
+    "C11": (LAY + "refusal conditions of String._rewrite proved; image-at-the-raise compared for every malformed operation",
+            "Kernel-checked theorems: C11_string_too_large / C11_capacity_too_large (refused exactly when more than the stored size is "
+            "needed), C11_string_fit_frame (an accepted assignment stays inside the slot's fixed extent and keeps the size word), "
+            "C11_string_fit_value, C11_scalar_never_overruns. Known finding O-13 (non-atomic dict update of a nested struct) is "
+            "listed in known_findings.json.",
+            "Partial: index/shape/union-membership/context refusals are decision logic compared by the tie (exception class and "
+            "buffer image at the raise), not theorems.",
+            "7/C11"),
 }
 
 NOT_YET = {
